@@ -20,7 +20,12 @@ Sides == {"inbound", "outbound"}
 \* methods2: an allow-list that does NOT contain the streaming method (the stream interceptor's refusal path)
 \* empty: a policy that is present but lists nothing (aclPolicy: {}): only the static deny-list applies
 Policies == {"none", "methods", "methods2", "namespaces", "both", "empty"}
+\* "only:<m>": the allow-list is the singleton {m}, for every admin method m (the property: every allow-list drawn from the method
+\* set, singleton lists included - a listed method admits itself and nothing else, e.g. not its ...V2 sibling)
+SinglePolicy(m) == "only:" \o m
+SinglePolicies == {SinglePolicy(m) : m \in AdminMethods}
 AllowedAdminOf(p) == IF p = "methods2" THEN {"DescribeCluster"}
+                     ELSE IF p \in SinglePolicies THEN {m \in AdminMethods : SinglePolicy(m) = p}
                      ELSE {"DescribeCluster", "GetNamespace", "StreamWorkflowReplicationMessages"}
 AlwaysDenied == {"RegisterNamespace", "DeprecateNamespace"}
 \* names the caller may put into the request's namespace field ("-" = the request has no such field / leave it empty)
@@ -42,15 +47,25 @@ Transports == {"tcp", "mux"}
 \* the intra-proxy marker (x-s2s-intra-proxy: 1). They are ordinary client metadata: no verdict (Denied) reads them.
 Hdrs == {"none", "bypass", "intra"}
 MethodCases == {[side |-> s, m |-> m, policy |-> p, mapping |-> TRUE, bypass |-> (h = "bypass"), intra |-> (h = "intra"),
-                 name |-> "ns-remote-ok", transport |-> tr] :
+                 name |-> "ns-remote-ok", transport |-> tr, fresh |-> FALSE] :
                   s \in Sides, m \in Methods, p \in {"none", "methods", "methods2", "empty"}, h \in Hdrs, tr \in Transports}
                \* a namespace allow-list next to the method policy must not soften a method-level refusal (only the cases the method
                \* policy refuses: what the namespace walk says about the other requests is C16's subject)
                \cup {[side |-> "inbound", m |-> m, policy |-> "both", mapping |-> TRUE, bypass |-> (h = "bypass"), intra |-> (h = "intra"),
-                      name |-> "ns-remote-ok", transport |-> tr] :
+                      name |-> "ns-remote-ok", transport |-> tr, fresh |-> FALSE] :
                        m \in {x \in Methods : (x.service = "workflow" /\ x.method \in AlwaysDenied)
                                               \/ (x.service = "admin" /\ x.method \notin AllowedAdminOf("both"))},
                        h \in Hdrs, tr \in Transports}
+\* every singleton allow-list x every admin method (SingleTransports: tcp in the quick tier, both in the thorough tier)
+SingletonCases(trs) == {[side |-> "inbound", m |-> m, policy |-> SinglePolicy(a), mapping |-> TRUE, bypass |-> FALSE, intra |-> FALSE,
+                         name |-> "ns-remote-ok", transport |-> tr, fresh |-> FALSE] :
+                          a \in AdminMethods, m \in {x \in Methods : x.service = "admin"}, tr \in trs}
+\* fresh: the call is the FIRST one a newly started remote-facing server sees (nothing the server builds lazily exists yet):
+\* the streaming method, an unlisted and a listed unary method, under each policy class
+FreshCases == {[side |-> "inbound", m |-> m, policy |-> p, mapping |-> TRUE, bypass |-> FALSE, intra |-> FALSE,
+                name |-> "ns-remote-ok", transport |-> tr, fresh |-> TRUE] :
+                 m \in {x \in Methods : x.service = "admin" /\ (x.stream \/ x.method \in {"DescribeCluster", "AddOrUpdateRemoteCluster"})},
+                 p \in {"methods", "methods2", "empty", "both"}, tr \in Transports}
 NameCases == {[side |-> s, m |-> m, policy |-> p, mapping |-> mp, bypass |-> b, name |-> n, transport |-> "tcp"] :
                   s \in Sides, m \in {x \in Methods : x.hasns /\ ~x.stream}, p \in {"none", "namespaces", "both"}, mp \in BOOLEAN,
                   b \in BOOLEAN, n \in Names}
@@ -67,7 +82,7 @@ OneToOne(ls) == \A i, j \in 1..Len(ls) : i # j => (ls[i].local # ls[j].local /\ 
 SeenName(c) == IF ~c.m.hasns THEN "" ELSE
                IF ~c.mapping \/ c.bypass THEN c.name
                ELSE IF c.side = "inbound" THEN ToLocal(c.name) ELSE ToRemote(c.name)
-HasMethodPolicy(c) == c.policy \in {"methods", "methods2", "both"}
+HasMethodPolicy(c) == c.policy \in {"methods", "methods2", "both"} \cup SinglePolicies
 HasNsPolicy(c) == c.policy \in {"namespaces", "both"}
 Denied(c) ==
   /\ c.side = "inbound" /\ c.policy # "none"
